@@ -4,7 +4,7 @@ use std::mem;
 #[cfg(not(target_arch = "wasm32"))]
 use std::time::Instant;
 
-use console::{measure_text_width, Style};
+use console::{measure_text_width, AnsiCodeIterator, Style};
 #[cfg(feature = "unicode-segmentation")]
 use unicode_segmentation::UnicodeSegmentation;
 #[cfg(target_arch = "wasm32")]
@@ -721,16 +721,32 @@ impl fmt::Display for PaddedStringDisplay<'_> {
         if excess > 0 && !self.truncate {
             return f.write_str(self.str);
         } else if excess > 0 {
-            let (start, end) = match self.align {
-                Alignment::Left => (0, self.str.len() - excess),
-                Alignment::Right => (excess, self.str.len()),
-                Alignment::Center => (
-                    excess / 2,
-                    self.str.len() - excess.saturating_sub(excess / 2),
-                ),
+            // Keep `width` columns from the start, the middle or the end. This counts columns,
+            // not bytes: characters can be several bytes and/or two columns wide, and escape
+            // sequences (which are all kept, so that styling is still reset) take no column.
+            let skip = match self.align {
+                Alignment::Left => 0,
+                Alignment::Right => excess,
+                Alignment::Center => excess / 2,
             };
 
-            return f.write_str(self.str.get(start..end).unwrap_or(self.str));
+            let (mut col, end) = (0, skip + self.width);
+            for (piece, is_ansi) in AnsiCodeIterator::new(self.str) {
+                if is_ansi {
+                    f.write_str(piece)?;
+                    continue;
+                }
+
+                for c in piece.chars() {
+                    let char_cols = measure(c.encode_utf8(&mut [0; 4]));
+                    if col >= skip && col + char_cols <= end {
+                        f.write_char(c)?;
+                    }
+                    col += char_cols;
+                }
+            }
+
+            return Ok(());
         }
 
         let diff = self.width.saturating_sub(cols);
